@@ -303,6 +303,133 @@ def _deep_chunk(params, lo, hi):
     return r
 
 
+def _medium_models():
+    """(name, builder): models with 8-24 variables that are satisfiable by construction; builder(Model) returns
+    (variables, checker) where checker(values) lists the constraints the assignment breaks"""
+
+    def queens(n):
+        def build(m):
+            q = [m.int_var(0, n - 1, f"q{i}") for i in range(n)]
+            m.add(m.all_different(q))
+            for i in range(n):
+                for j in range(i + 1, n):
+                    m.add(q[i] + i != q[j] + j)
+                    m.add(q[i] - i != q[j] - j)
+
+            def chk(v):
+                bad = []
+                if len(set(v)) != n:
+                    bad.append("all_different")
+                bad += [f"diagonal {i},{j}" for i in range(n) for j in range(i + 1, n) if abs(v[i] - v[j]) == j - i]
+                return bad
+
+            return q, chk
+
+        return build
+
+    def long_sum(n, target, kind):
+        def build(m):
+            x = [m.int_var(0, 3, f"x{i}") for i in range(n)]
+            m.add({"eq": m.sum_eq, "le": m.sum_le, "ge": m.sum_ge}[kind](x, target))
+            m.add(x[0] == 3)
+            m.add(x[n - 1] != x[0])
+
+            def chk(v):
+                s_ = sum(v)
+                bad = [] if {"eq": s_ == target, "le": s_ <= target, "ge": s_ >= target}[kind] else [f"sum {s_} {kind} {target}"]
+                if v[0] != 3:
+                    bad.append("x0 == 3")
+                if v[n - 1] == v[0]:
+                    bad.append("x[n-1] != x0")
+                return bad
+
+            return x, chk
+
+        return build
+
+    def tour(n):
+        def build(m):
+            s_ = [m.int_var(0, n - 1, f"s{i}") for i in range(n)]
+            m.add(m.circuit(s_))
+            m.add(s_[0] == 3)
+
+            def chk(v):
+                seen, cur = set(), 0
+                for _ in range(n):
+                    seen.add(cur)
+                    cur = v[cur]
+                bad = [] if (len(seen) == n and cur == 0) else ["circuit"]
+                return bad + ([] if v[0] == 3 else ["s0 == 3"])
+
+            return s_, chk
+
+        return build
+
+    def machine(n, cap):
+        durs = [1 + (i * 3) % 3 for i in range(n)]
+        dems = [1 + i % 2 for i in range(n)]
+        horizon = sum(durs)
+
+        def build(m):
+            st = [m.int_var(0, horizon, f"t{i}") for i in range(n)]
+            if cap == 1:
+                m.add(m.no_overlap(st, durs))
+            else:
+                m.add(m.cumulative(st, durs, dems, cap))
+
+            def chk(v):
+                bad = []
+                for t in range(horizon + 4):
+                    act = [i for i in range(n) if v[i] <= t < v[i] + durs[i]]
+                    if (cap == 1 and len(act) > 1) or (cap > 1 and sum(dems[i] for i in act) > cap):
+                        bad.append(f"overload at time {t}")
+                        break
+                return bad
+
+            return st, chk
+
+        return build
+
+    return [("queens8", queens(8)), ("queens10", queens(10)), ("sum_eq_12_terms", long_sum(12, 17, "eq")), ("sum_le_16_terms", long_sum(16, 9, "le")), ("sum_ge_24_terms", long_sum(24, 60, "ge")), ("circuit8", tour(8)), ("circuit12", tour(12)), ("no_overlap_8_tasks", machine(8, 1)), ("cumulative_8_tasks_cap3", machine(8, 3))]
+
+
+def _medium_chunk(params, lo, hi):
+    """index = model*3 + solver"""
+    from solvor.cp import Model
+    from solvor.types import Status
+
+    models = _medium_models()
+    r = new_result()
+    for idx in range(lo, hi):
+        name, build = models[idx // 3]
+        solver = ("auto", "dfs", "sat")[idx % 3]
+        wit = {"medium": name, "solver": solver}
+        m = Model()
+        xs, chk = build(m)
+        r["n"] += 1
+        r["nontrivial"] += 1
+        try:
+            res = gcall(lambda: m.solve(solver=solver), 120.0, 1_500_000_000)
+        except Exception as ex:  # noqa: BLE001
+            r["outcomes"]["medium:raised"] += 1
+            r["violations"].append(viol("Model.solve", "raised" if not isinstance(ex, SolverHang) else "nontermination", wit, f"Model.solve(solver={solver!r}) on {name}: {type(ex).__name__}: {str(ex)[:120]}"))
+            continue
+        r["outcomes"][f"medium:{res.status.name}"] += 1
+        if res.status != Status.OPTIMAL or res.solution is None:
+            r["violations"].append(viol("Model.solve", "wrong_infeasible", wit, f"Model.solve(solver={solver!r}) on {name}: status {res.status.name} although the model is satisfiable by construction"))
+            continue
+        try:
+            v = [res.solution[x.name] for x in xs]
+            bad = [f"{x.name} outside its domain" for x, val in zip(xs, v) if not (x.lb <= val <= x.ub)] or chk(v)
+        except Exception as ex:  # noqa: BLE001
+            bad = [f"solution unreadable: {ex!r}"]
+        if bad:
+            r["violations"].append(viol("Model.solve", "constraint_broken", wit, f"Model.solve(solver={solver!r}) on {name}: solution {res.solution} breaks {bad[:3]}"))
+        if not r["samples"]:
+            r["samples"].append(wit)
+    return r
+
+
 N_INC = len(INC_A) * len(INC_B) * 3 * 2 * 3 * 2
 
 
@@ -381,6 +508,7 @@ def jobs(tier, seed):
             lo, hi = size * b // nb, size * (b + 1) // nb
             label = f"{name}_block{b}of{nb}"
         js.append(Job(label, hi - lo, _chunk, (name, full_mod, lo), describe=f"model space '{name}' ({size} models); every {full_mod}-th model gets the full solver/limit/hint menu, the others solver x limit in {{1,10^6}}"))
+    js.append(Job("medium_models", len(_medium_models()) * 3, _medium_chunk, None, chunk=1, describe="8 and 10 queens, sums over 12-24 variables, circuits on 8 and 12 nodes, 8 tasks on a unary / capacity-3 resource: satisfiable by construction, the returned assignment is checked against the definitions; auto, dfs and sat"))
     js.append(Job("deep_models", len(DEEP) * 3, _deep_chunk, None, chunk=1, describe="1500 unconstrained 0/1 variables, 1100 variables over 0..2 with x[i] != x[i+1] on the first 30, 1100 variables over 0..3 with x[0] + x[1099] == 6: more decision levels than the interpreter's recursion limit; dfs, auto and sat"))
     js.append(Job("incremental_resolve", N_INC, _inc_chunk, None, describe="histories of one Model object: build, solve, add a variable and constraints, solve again (8 first parts x 8 second parts x 3 domains x solver pairs x limits)"))
     return js
@@ -388,6 +516,10 @@ def jobs(tier, seed):
 
 def replay(v):
     w = v["witness"]
+    if w.get("medium"):
+        i = [mm[0] for mm in _medium_models()].index(w["medium"]) * 3 + ("auto", "dfs", "sat").index(w["solver"])
+        r = _medium_chunk(None, i, i + 1)
+        return r["violations"][0] if r["violations"] else None
     if w.get("deep"):
         i = [d[0] for d in DEEP].index(w["deep"]) * 3 + ("dfs", "auto", "sat").index(w["solver"])
         r = _deep_chunk(None, i, i + 1)
